@@ -196,3 +196,11 @@ def c11_upconverted_burst_never_flushed(v, case):
     Accepts only witnesses on the up-converting path of runs that contained such an unaligned burst."""
     return bool(v.get("path") == "up" and (v.get("bursts_not_aligned_to_wide_word_in_run") or 0) > 0
                 and v.get("kind") in _C11_SYMPTOMS)
+
+
+# ------------------------------------------------------------------------------------------------ C19
+def c19_model_column_includes_a10(v, case):
+    """SDRAMPHYModel takes the column as address[:colbits]: for devices with more than 10 column bits it uses A10 (the
+    auto-precharge flag) as column bit 10 and drops A11, so columns >= 1024 and auto-precharged accesses hit the wrong
+    location.  Accepts only data divergences on geometries with colbits > 10."""
+    return bool((v.get("colbits") or 0) > 10 and v.get("kind") in ("model-read-data-differs-from-reference", "read-data-mismatch"))
